@@ -23,7 +23,7 @@ int main(int argc, char** argv) {
     return 0;
   }
   std::unique_ptr<M> objs[4];
-  objs[0] = std::make_unique<M>();
+  objs[0] = std::make_unique<M>(); D::caps_r(*objs[0]);
   std::string line;
   while (std::getline(std::cin, line)) {
     if (line.empty()) continue;
@@ -40,7 +40,7 @@ int main(int argc, char** argv) {
     H::parse_plan(is);
     H::cbn() = 0;
     try {
-      if (op == "RESET") { objs[target] = std::make_unique<M>(); }
+      if (op == "RESET") { objs[target] = std::make_unique<M>(); D::caps_r(*objs[target]); }
       else if (op == "COPY") { objs[dst] = std::make_unique<M>(static_cast<const M&>(*objs[src])); }
       else if (op == "ASSIGN") { *objs[dst] = static_cast<const M&>(*objs[src]); }
 #ifdef H_MP11
@@ -50,7 +50,7 @@ int main(int argc, char** argv) {
       else if (op == "SAVELOAD") {
         std::stringstream ss;
         { boost::archive::text_oarchive oa(ss); oa << static_cast<const M&>(*objs[src]); }
-        objs[dst] = std::make_unique<M>();
+        objs[dst] = std::make_unique<M>(); D::caps_r(*objs[dst]);
         { boost::archive::text_iarchive ia(ss); ia >> *objs[dst]; }
         // the binary format must give the same object: loaded into a scratch object and compared by its snapshot below
         std::stringstream sb;
